@@ -90,6 +90,22 @@ def features():
         for pos, (a, b) in (("first", ("1.5", "0.0")), ("last", ("0.0", "2.5"))):
             yield ("clock-init-fp", "global:%s:%s" % (sid, pos), dict(), text.format(n="gcs", a=a, b=b), {"symbolic"})
             yield ("clock-init-fp", "template-local:%s:%s" % (sid, pos), dict(decl="clock x; hybrid clock h; " + text.format(n="lcs", a=a, b=b)), "", {"symbolic"})
+    # records that contain a clock, initialised field by field with *named* initialisers in every order (the order of the names need
+    # not be the order of the fields), positionally, as elements of an array and nested in another record
+    fields = {"id": ("int", "1"), "c": ("clock", "2.5"), "dv": ("double", "0.5"), "c2": ("clock", "0.0")}
+    for names in (("id", "c"), ("c", "dv"), ("id", "c", "dv"), ("c", "c2"), ("id", "c2", "c")):
+        for dperm in itertools.permutations(names):
+            rec = "typedef struct { %s } rn_t;" % " ".join("%s %s;" % (fields[f][0], f) for f in dperm)
+            for iperm in itertools.permutations(names):
+                named = "{ %s }" % ", ".join("%s: %s" % (f, fields[f][1]) for f in iperm)
+                tag = "fields-%s:named-%s" % ("-".join(dperm), "-".join(iperm))
+                for wid, text in (("variable", "%s rn_t {n} = %s;" % (rec, named)), ("array-element", "%s rn_t {n}[2] = {{ %s, %s }};" % (rec, named, named)),
+                                  ("nested", "%s struct {{ int pre; rn_t in; }} {n} = {{ 3, %s }};" % (rec, named))):
+                    if wid != "variable" and len(names) == 3 and iperm != tuple(reversed(dperm)):
+                        continue
+                    yield ("clock-init-fp", "global:record:%s:%s" % (tag, wid), dict(), text.replace("{{", "{").replace("}}", "}").replace("{n}", "grn"), {"symbolic"})
+                    yield ("clock-init-fp", "template-local:record:%s:%s" % (tag, wid),
+                           dict(decl="clock x; hybrid clock h; " + text.replace("{{", "{").replace("}}", "}").replace("{n}", "lrn")), "", {"symbolic"})
     yield ("clock-init-fp", "template-local", dict(decl="clock x = 1.5; hybrid clock h;"), "", {"symbolic"})
     yield ("clock-init-fp", "global", dict(), "clock gx = 1.5;", {"symbolic"})
     yield ("clock-init-fp", "template-local-double-var", dict(decl="clock x = d; hybrid clock h;"), "", {"symbolic"})
@@ -148,6 +164,10 @@ def controls():
     """feature-free or explicitly permitted variants: nothing may be restricted *because of them* (reported, not demanded)"""
     yield ("control:int-guard", dict(guard="i == 0 && i < 5"))
     yield ("control:record-with-double-and-clock-fp-only-in-the-double", dict(decl="clock x; hybrid clock h; struct { double dv; clock cv; } rdc = {1.5, 0};"))
+    for iperm in itertools.permutations(("id", "c", "dv")):
+        yield ("control:named-record-initialiser-fp-only-for-the-double:" + "-".join(iperm),
+               dict(decl="clock x; hybrid clock h; struct { int id; clock c; double dv; } rdn = { %s };" %
+                    ", ".join("%s: %s" % (f, {"id": "1", "c": "2", "dv": "0.5"}[f]) for f in iperm)))
     yield ("control:clock-int-guard", dict(guard="x < 5 && i == 0"))
     yield ("control:rate-0-1", dict(inv="x' == 0 && i >= 0"))
     yield ("control:hybrid-rate", dict(inv="h' == 2 && x <= 5"))
